@@ -89,6 +89,18 @@ CHECKS["C07"] = dict(
     design="5/C07",
 )
 
+CHECKS["C08"] = dict(
+    text="Proved on the model of Row.traverse (both branches) and Table._yield_odf_rows: the k-th yielded cell is addressed x = k and is the k-th cell of "
+    "the expanded row, rows come once per repetition, and NO yielded cell keeps a repeat count wherever a range starts (incl. the last position of a "
+    "repeated run); get_value addresses the asked cell for every integer coordinate and answers the empty cell outside the populated area. "
+    "Decided by correspondence only (partial): detachment - every getter of the property, 4-5 mutations of every returned object, table XML compared "
+    "byte for byte, other returned objects compared too.",
+    note=TABLE_NOTE + "Aliasing cannot be expressed in a pure model: 'detached' is exploration on the implementation, not a theorem. Single-item reads "
+    "(get_cell, get_row, get_column, and the per-row cells of get_column_cells) may keep their repeat count; only expanding reads must drop it.",
+    technique="Lean 4 theorems on the traverse loops + differential correspondence + mutation-of-returned-object oracle",
+    design="5/C08",
+)
+
 NOT_YET = {}
 
 
